@@ -44,6 +44,8 @@ EXTREME = [(3600, 2.0 ** -30, 2.0 ** -30), (1800, 2.0 ** 30, 2.0 ** 31)]
 ZERO = [(3600, 0.0, 0.0), (1800, 0.0, 5.0), (1200, 3.0, 0.0)]
 # whole-number intensities whose depth per step is not a whole number
 ODD = [(1200, 5.0, 3.0)]
+# records in 1960 (negative epochs) and 2040 (epochs beyond 2^31)
+FAR_T0 = [-315619200, 2208988800]
 # time steps of one day, two days and one second (threshold x step exact)
 LONGSTEP = [(86400, 0.25, 0.125), (172800, 0.5, 0.25), (1, 7200.0, 3600.0)]
 # threshold x step is NOT exact in binary; increments are the decimal
@@ -206,7 +208,8 @@ def run_fn(case, want):
 SYMS3 = 3
 
 
-def db_space(n, combo, max_gaps, binary=False, cli=False, base_level=0.0):
+def db_space(n, combo, max_gaps, binary=False, cli=False, base_level=0.0,
+             t0=None):
     """Records with n samples: rain word (n symbols), increment word
     (n-1 symbols), gap mask over the n-2 interior samples with at most
     max_gaps missing.  binary=True restricts both alphabets to the two
@@ -228,12 +231,15 @@ def db_space(n, combo, max_gaps, binary=False, cli=False, base_level=0.0):
             # the record starts at a level that is not a binary fraction: differences
             # of neighbouring stored levels are still exact (Sterbenz), a rate z / step_h is not
             case['base_level'] = base_level
+        if t0 is not None:
+            case['t0'] = t0
         return case
     return Space(
-        '%s/n=%d/dt=%d,s=%g,j=%g/%s/gaps<=%d%s' % (
+        '%s/n=%d/dt=%d,s=%g,j=%g/%s/gaps<=%d%s%s' % (
             'main(argv)' if cli else 'load+classify', n, combo[0], combo[1],
             combo[2], 'binary' if binary else 'ternary', max_gaps,
-            '/levels from %g' % base_level if base_level else ''),
+            '/levels from %g' % base_level if base_level else '',
+            '/record starts at epoch %d' % t0 if t0 is not None else ''),
         size, decode,
         'rain in {0,=s,>s} x increment in {fall,=j*dt,>j*dt} x gap masks'
         if not binary else
